@@ -216,7 +216,7 @@ func (w *Writer) writeV1(m Message) (int64, error) {
 	binary.BigEndian.PutUint32(w.buff[24:], crc)
 
 	pos := w.pos
-	if n, err := w.f.Write(w.buff); err != nil {
+	if n, err := verifhook.Write(w.f, w.buff); err != nil {
 		return 0, fmt.Errorf("write log: %w", err)
 	} else {
 		w.pos += int64(n)
@@ -264,7 +264,7 @@ func (w *Writer) writeV2(m Message) (int64, error) {
 	binary.BigEndian.PutUint32(w.buff[0:], crc)
 
 	pos := w.pos
-	if n, err := w.f.Write(w.buff); err != nil {
+	if n, err := verifhook.Write(w.f, w.buff); err != nil {
 		return 0, fmt.Errorf("write log: %w", err)
 	} else {
 		w.pos += int64(n)
